@@ -392,11 +392,11 @@ def gen_nfc_tree(rng: random.Random) -> typing.Tuple[list, str, str]:
         return ["bin", rng.choice(["eq", "ne"]), l, r], "cmp", "equal" if same else "unequal"
     if x < 0.6:
         return spelled(rng, respell(rng, a), rng.choice([2, 3, 4])), "value", "string"
-    # sets of strings: the same texts cut differently (and, rarely, spelled differently: mostly the class of finding F14)
+    # sets of strings: the same texts cut differently or spelled differently (one element: identity is by NFC form), and near misses
     texts = [respell(rng, a)] + [respell(rng, nfc_text(rng)) if rng.random() < 0.7 else near_miss(rng, a) for _ in range(rng.choice([0, 1, 1, 2]))]
 
     def again(t):
-        return respell(rng, t) if rng.random() < 0.25 else t
+        return respell(rng, t) if rng.random() < 0.5 else t
 
     s1 = ["set", [spelled(rng, t) for t in texts]]
     others = [again(t) for t in texts if rng.random() < 0.85] or [again(texts[0])]
@@ -527,15 +527,16 @@ BIG_BITS = 12000
 
 
 class OStr:
-    """A string value of the oracle: the text as written (`raw`) and what identifies it (`key`).  Under the
-    Specification ("spec") a string is identified by its NFC form; "built" (identified by the raw text, only `==`/`!=`
-    normalise) is what the library does and serves solely to recognise the class of finding F14, see `nfc_set_identity_class`."""
-    __slots__ = ("raw", "key", "sem")
+    """A string value of the oracle.  A string is identified by its NFC form (`key`) wherever identity matters: `==`,
+    `!=`, membership in a set.  `raw` is one spelling of it; `amb` records that the value went through a set in which two
+    different spellings met, so that which of them a `.min` / `.max` hands back is not determined (the Specification
+    cannot tell them apart; only the ASCII test of a constant initialiser looks at the spelling)."""
+    __slots__ = ("raw", "key", "amb")
 
-    def __init__(self, raw: str, sem: str = "spec"):
+    def __init__(self, raw: str, amb: bool = False):
         self.raw = raw
-        self.sem = sem
-        self.key = nfc(raw) if sem == "spec" else raw
+        self.key = nfc(raw)
+        self.amb = amb
 
     def __eq__(self, other):
         return isinstance(other, OStr) and self.key == other.key
@@ -569,6 +570,11 @@ def mk_set(elems) -> frozenset:
         raise Invalid("empty set")
     if len({kind_of(e) for e in elems}) != 1:
         raise Invalid("heterogeneous set")
+    if isinstance(elems[0], OStr):
+        groups: typing.Dict[str, typing.List[OStr]] = {}
+        for e in elems:
+            groups.setdefault(e.key, []).append(e)
+        return frozenset(OStr(g[0].raw, any(x.amb for x in g) or len({x.raw for x in g}) > 1) for g in groups.values())
     return frozenset(elems)
 
 
@@ -634,7 +640,7 @@ def prim_bin(op: str, a, b):
         raise Invalid("undefined for booleans: " + op)
     if ka == kb == "str":
         if op == "add":
-            return OStr(a.raw + b.raw, a.sem)        # the code points are concatenated; nothing else happens to them
+            return OStr(a.raw + b.raw, a.amb or b.amb)   # the code points are concatenated; nothing else happens to them
         if op == "eq":
             return nfc(a.raw) == nfc(b.raw)          # the Specification: strings compare by their NFC forms
         if op == "ne":
@@ -664,7 +670,12 @@ def o_bin(op: str, a, b):
             return a < b
         if op == "gt":
             return a > b
-        return mk_set(a | b if op == "bor" else a ^ b if op == "bxor" else a & b)
+        la, lb = list(a), list(b)           # as lists: mk_set sees every spelling that meets in the result
+        if op == "bor":
+            return mk_set(la + lb)
+        if op == "bxor":
+            return mk_set([x for x in la if x not in b] + [x for x in lb if x not in a])
+        return mk_set([x for x in la if x in b] + [x for x in lb if x in a])
     if op not in ARITH:
         raise Invalid("set x scalar: " + op)
     if ka == "set":
@@ -719,7 +730,7 @@ def o_attr(a, name: str):
     raise Invalid("unknown attribute " + name)
 
 
-def o_eval(t, env: dict, sem: str = "spec"):
+def o_eval(t, env: dict):
     k = t[0]
     if k == "int":
         return Fraction(t[2])
@@ -728,7 +739,7 @@ def o_eval(t, env: dict, sem: str = "spec"):
     if k == "str":
         if t[2] is None:
             raise Invalid("malformed string literal")
-        return OStr("".join(chr(c) for c in t[2]), sem)
+        return OStr("".join(chr(c) for c in t[2]))
     if k == "bool":
         return bool(t[1])
     if k == "id":
@@ -736,15 +747,15 @@ def o_eval(t, env: dict, sem: str = "spec"):
             raise Invalid("undefined identifier")
         return env[t[1]]
     if k == "set":
-        return mk_set([o_eval(e, env, sem) for e in t[1]])
+        return mk_set([o_eval(e, env) for e in t[1]])
     if k == "un":
-        return o_un(t[1], o_eval(t[2], env, sem))
+        return o_un(t[1], o_eval(t[2], env))
     if k == "bin":
-        a = o_eval(t[2], env, sem)
-        b = o_eval(t[3], env, sem)
+        a = o_eval(t[2], env)
+        b = o_eval(t[3], env)
         return o_bin(t[1], a, b)
     if k == "attr":
-        return o_attr(o_eval(t[1], env, sem), t[2])
+        return o_attr(o_eval(t[1], env), t[2])
     raise ValueError(k)
 
 
@@ -836,7 +847,7 @@ def o_const(ty, v):
             if any(0xD800 <= ord(c) <= 0xDFFF for c in raw):
                 raise Skip("lone surrogate in a constant string (no UTF-8 encoding exists)")
             one_ascii = [len(x) == 1 and ord(x) < 128 for x in (raw, nfc(raw))]
-            if one_ascii[0] != one_ascii[1]:
+            if one_ascii[0] != one_ascii[1] or (v.amb and one_ascii[1]):
                 raise Skip("one ASCII character in only one of two canonically equivalent spellings (U+212A KELVIN SIGN = 'K')")
             if k == "uint" and n == 8 and one_ascii[0]:
                 return Fraction(ord(raw))
@@ -882,40 +893,22 @@ def o_observe(ctx, v):
     raise ValueError(c)
 
 
-def o_case(case, sem: str = "spec") -> typing.Tuple[str, typing.Any]:
+def o_case(case) -> typing.Tuple[str, typing.Any]:
     """('v', canonical value) | ('invalid', why) | ('skip', why)"""
     try:
         env: dict = {}
         for name, ty, t, _text in case.get("env", []):
             if not ty_wf(ty):
                 raise Invalid("type parameters")
-            env[name] = o_const(ty, o_eval(t, env, sem))
+            env[name] = o_const(ty, o_eval(t, env))
         ctx = case["ctx"]
         if ctx[0] == "const" and not ty_wf(ctx[1]):
             raise Invalid("type parameters")
-        return "v", canon(o_observe(ctx, o_eval(case["tree"], env, sem)))
+        return "v", canon(o_observe(ctx, o_eval(case["tree"], env)))
     except Invalid as ex:
         return "invalid", str(ex)
     except Skip as ex:
         return "skip", str(ex)
-
-
-# Finding F14 (genuine, unchanged pydsdl; reported, not yet fixed): `==` / `!=` of two strings compare the NFC forms, but a
-# set identifies its elements by their raw text (String.__eq__ / __hash__), so `{'\u00e9'} == {'e\u0301'}` is false and
-# `{'\u00e9', 'e\u0301'}.count` is 2 although the two elements are equal strings.  The oracle keeps the Specification's
-# notion (one element); the inputs whose outcome depends on it are kept OUT OF THE GENERATOR until the finding is fixed
-# or listed (GEN_F14 = False), so that the check stays green.  Nothing else is excluded.
-GEN_F14 = False
-
-
-def nfc_set_identity_class(case) -> bool:
-    """Does the outcome of the case depend on whether canonically equivalent, differently spelled strings are one element
-    of a set or two (the class of finding F14)?"""
-    cps = tree_code_points(case["tree"])
-    if not any(c >= 0x80 for c in cps):
-        return False
-    a, b = o_case(case, "spec"), o_case(case, "built")
-    return a[0] != b[0] or (a[0] == "v" and a[1] != b[1])
 
 
 # ------------------------------------------------------------------------------------------------ generator
@@ -1222,8 +1215,6 @@ def gen_case(rng: random.Random) -> dict:
         status, val = o_case(case)
         if status == "skip":
             continue
-        if not GEN_F14 and nfc_set_identity_class(case):
-            continue                       # finding F14 (see nfc_set_identity_class): kept out until fixed or listed
         style = rng.random()
         if style < 0.45:
             case["text"] = render(tree, rng, 0.0, rng.choice([0.0, 0.5, 1.0]))
@@ -1490,7 +1481,7 @@ def nfc_features(tree) -> typing.Set[str]:
 
     def val(t):
         try:
-            v = o_eval(t, {}, "built")
+            v = o_eval(t, {})
         except (Invalid, Skip):
             return None
         return v.raw if isinstance(v, OStr) else None
@@ -1554,6 +1545,21 @@ class ExprSuite(common.Suite):
                     if a is not b:
                         t = ["bin", "eq", a, b]
                         out.append({"tree": t, "env": [], "ctx": ["assert"], "text": render(t), "style": "plain", "fam": "nfc-corpus"})
+        # regression for finding F14 (repo fix 5c4ff03): the elements of a set are identified by their NFC forms, like the
+        # operands of `==` - two spellings of one text are one element in literals, comparisons, algebra and element-wise results
+        for cps in ([0xE9], [0x1ED1], [0xAC01], [0x212B]):
+            c, d = ascii_str(cps), ascii_str([ord(x) for x in unicodedata.normalize("NFD", _s(cps))])
+            one = lit_int(1, r)
+            for t in (["bin", "eq", ["set", [c]], ["set", [d]]],
+                      ["bin", "le", ["set", [d]], ["set", [c, ascii_str([0x78])]]],
+                      ["bin", "eq", ["attr", ["set", [c, d]], "count"], one],
+                      ["bin", "eq", ["attr", ["bin", "band", ["set", [c]], ["set", [d]]], "count"], one],
+                      ["bin", "eq", ["attr", ["bin", "bor", ["set", [c]], ["set", [d]]], "count"], one],
+                      ["bin", "eq", ["bin", "add", ["set", [ascii_str(d[2][:-1])]], ascii_str(d[2][-1:])], ["set", [c]]],
+                      ["bin", "eq", ["attr", ["set", [c, d]], "min"], c]):
+                out.append({"tree": t, "env": [], "ctx": ["assert"], "text": render(t), "style": "plain", "fam": "nfc-corpus"})
+            t = ["bin", "bxor", ["set", [c]], ["set", [d]]]                  # empty: must be rejected
+            out.append({"tree": t, "env": [], "ctx": ["print"], "text": render(t), "style": "plain", "fam": "nfc-corpus"})
         for a, b in ((0xFB03, "ffi"), (0xB5, "\u03bc"), (0x2460, "1"), (0xFF21, "A")):
             t = ["bin", "ne", ascii_str([a]), ascii_str([ord(c) for c in b])]
             out.append({"tree": t, "env": [], "ctx": ["assert"], "text": render(t), "style": "plain", "fam": "nfc-corpus"})
@@ -1624,17 +1630,9 @@ class ExprSuite(common.Suite):
             return "%s/%s%s" % (prop, cls, "/" + exc[:40] if exc else "")
         what = "wrong-value" if "mathematical value" in desc else "wrongly-rejected" if "rejected it" in desc else "wrongly-accepted" if "must be rejected" in desc else \
             "no-path" if "without the path" in desc else "diff"
-        if what != "diff" and nfc_set_identity_class(case):
-            return "%s/F14/set-elements-identified-by-raw-text" % prop
         return "%s/%s" % (prop, what)
 
     def shrink(self, case):
-        for c in self._shrink(case):
-            # never shrink into the class of finding F14 (a different defect than the one being minimised)
-            if GEN_F14 or nfc_set_identity_class(case) or not nfc_set_identity_class(c):
-                yield c
-
-    def _shrink(self, case):
         for t in shrink_tree(case["tree"]):
             c = dict(case)
             c["tree"] = t
